@@ -368,6 +368,11 @@ class ExecS(Exec):
         rhs = self.ev(s.value, st)
         if isinstance(cur, ListV) and isinstance(s.op, ast.Add):
             v = ListV(cur.items + (rhs.items if isinstance(rhs, ListV) else tuple((z3.BoolVal(True), i) for i in rhs.items)))
+        elif isinstance(cur, ObjV) and isinstance(s.op, ast.Add) and cur.cls not in ("__kwdict__",):
+            # x += y on an object: x = x.__iadd__(y)
+            from .calls import _call_method
+            res_, new_ = _call_method(self, cur, "__iadd__", [rhs], {}, st, s, False)
+            v = res_ if res_ is not None else (new_ if new_ is not None else cur)
         else:
             v = self.arith(s.op, cur, rhs, st, s, False)
         outs = self.split_pending(st, s)
